@@ -49,14 +49,18 @@ fn mini_c01(ser: &mut ChunkSerializer, de: &mut ChunkDeserializer, cs: u64) -> R
         lens.push(cs as usize + 1);
         lens.push(2 * cs as usize);
     }
-    for (i, len) in lens.into_iter().enumerate() {
+    // (type, length): video of several sizes, then protocol-control and audio messages on their own chunk streams
+    let mut items: Vec<(u8, usize)> = lens.into_iter().map(|l| (9u8, l)).collect();
+    items.extend([(3u8, 4usize), (8, 0), (3, 4), (20, 7)]);
+    for (i, (ty, len)) in items.into_iter().enumerate() {
         let data = pattern(i as u32 + 1, len);
-        let m = MessagePayload { timestamp: RtmpTimestamp::new(10 * i as u32), type_id: 9, message_stream_id: 1, data: Bytes::from(data.clone()) };
+        let msid = if ty == 3 { 0 } else { 1 };
+        let m = MessagePayload { timestamp: RtmpTimestamp::new(10 * i as u32), type_id: ty, message_stream_id: msid, data: Bytes::from(data.clone()) };
         let p = ser.serialize(&m, false, false).map_err(|e| format!("serialize failed: {:?}", e))?;
-        let got = de.get_next_message(&p.bytes).map_err(|e| format!("deserialize failed: {:?}", e))?;
+        let got = de.get_next_message(&p.bytes).map_err(|e| format!("deserialize failed for a type {} message of {} bytes: {:?}", ty, len, e))?;
         match got {
-            Some(g) if g.data[..] == data[..] && g.timestamp.value == 10 * i as u32 && g.type_id == 9 && g.message_stream_id == 1 => {}
-            Some(g) => return Err(format!("message of {} bytes came back as {} bytes ts {}", len, g.data.len(), g.timestamp.value)),
+            Some(g) if g.data[..] == data[..] && g.timestamp.value == 10 * i as u32 && g.type_id == ty && g.message_stream_id == msid => {}
+            Some(g) => return Err(format!("type {} message of {} bytes at ts {} came back as type {} with {} bytes at ts {}", ty, len, 10 * i, g.type_id, g.data.len(), g.timestamp.value)),
             None => return Err(format!("message of {} bytes was not returned", len)),
         }
         if de.get_next_message(&[]).map_err(|e| format!("{:?}", e))?.is_some() {
@@ -64,6 +68,66 @@ fn mini_c01(ser: &mut ChunkSerializer, de: &mut ChunkDeserializer, cs: u64) -> R
         }
     }
     Ok(())
+}
+
+/// Announces `v` on a serializer/deserializer pair that is already in use; the announcement must reach the peer.
+fn announce(ser: &mut ChunkSerializer, de: &mut ChunkDeserializer, v: u64) -> Result<Result<(), String>, String> {
+    match ser.set_max_chunk_size(v as u32, RtmpTimestamp::new(0)) {
+        Err(e) => Ok(Err(format!("{:?}", e))),
+        Ok(p) => {
+            match de.get_next_message(&p.bytes) {
+                Ok(Some(m)) if m.type_id == 1 && m.data[..] == (v as u32).to_be_bytes()[..] => {}
+                other => return Err(format!("the Set Chunk Size packet announcing {} does not decode at the peer: {:?}", v, other.map(|o| o.map(|m| (m.type_id, m.data.len()))).map_err(|e| format!("{:?}", e)))),
+            }
+            if let Err(e) = de.set_max_chunk_size(v as usize) {
+                return Err(format!("serializer accepted chunk size {} but the deserializer refuses it: {:?}", v, e));
+            }
+            Ok(Ok(()))
+        }
+    }
+}
+
+/// `first`: a size announced (and used) before the value under test.
+fn ser_chunk_case(first: Option<u64>, v: u64) -> (String, String) {
+    let mut ser = ChunkSerializer::new();
+    let mut de = ChunkDeserializer::new();
+    let mut in_force = 128u64;
+    if let Some(f) = first {
+        match announce(&mut ser, &mut de, f) {
+            Ok(Ok(())) => {}
+            other => return ("broken".into(), format!("preparing with chunk size {}: {:?}", f, other)),
+        }
+        if let Err(e) = mini_c01(&mut ser, &mut de, f) {
+            return ("broken".into(), format!("at the first chunk size {}: {}", f, e));
+        }
+        in_force = f;
+    }
+    match announce(&mut ser, &mut de, v) {
+        Err(e) => ("broken".into(), e),
+        Ok(Err(e)) => {
+            // refused: the pair must keep working at the size in force, as if the call had not happened
+            match mini_c01(&mut ser, &mut de, in_force) {
+                Ok(()) => ("refused".into(), e),
+                Err(x) => ("refusal-side-effect".into(), format!("chunk size {} was refused ({}), but afterwards the codec no longer works at the size in force ({}): {}", v, e, in_force, x)),
+            }
+        }
+        Ok(Ok(())) => {
+            if let Err(e) = mini_c01(&mut ser, &mut de, v) {
+                return ("broken".into(), e);
+            }
+            // further announcements on the same pair
+            for w in [v, if v == 128 { 64 } else { 128 }, 3] {
+                match announce(&mut ser, &mut de, w) {
+                    Ok(Ok(())) => {}
+                    other => return ("broken".into(), format!("after working at chunk size {}, announcing {}: {:?}", v, w, other)),
+                }
+                if let Err(e) = mini_c01(&mut ser, &mut de, w) {
+                    return ("broken".into(), format!("after working at chunk size {}, then at {}: {}", v, w, e));
+                }
+            }
+            ("ok".into(), "mini C01 passed, also after further announcements".into())
+        }
+    }
 }
 
 fn run_cfg_case(kind: &str, v: u64) -> (String, String) {
@@ -85,30 +149,25 @@ fn run_cfg_case(kind: &str, v: u64) -> (String, String) {
         }
     };
     match kind {
-        "ser_chunk" => {
-            let mut ser = ChunkSerializer::new();
-            let mut de = ChunkDeserializer::new();
-            match ser.set_max_chunk_size(v as u32, RtmpTimestamp::new(0)) {
-                Err(e) => refused(format!("{:?}", e)),
-                Ok(p) => {
-                    match de.get_next_message(&p.bytes) {
-                        Ok(Some(m)) if m.type_id == 1 => {}
-                        other => return broken(format!("SetChunkSize packet does not decode: {:?}", other.map(|o| o.is_some()).map_err(|e| format!("{:?}", e)))),
-                    }
-                    if let Err(e) = de.set_max_chunk_size(v as usize) {
-                        return broken(format!("serializer accepted chunk size {} but the deserializer refuses it: {:?}", v, e));
-                    }
-                    match mini_c01(&mut ser, &mut de, v) {
-                        Ok(()) => ok("mini C01 passed"),
-                        Err(e) => broken(e),
-                    }
-                }
-            }
-        }
+        "ser_chunk" => ser_chunk_case(None, v),
+        "ser_chunk_after_3" => ser_chunk_case(Some(3), v),
+        "ser_chunk_after_5000" => ser_chunk_case(Some(5000), v),
         "de_chunk" => {
             let mut de = ChunkDeserializer::new();
             match de.set_max_chunk_size(v as usize) {
-                Err(e) => refused(format!("{:?}", e)),
+                Err(e) => {
+                    // refused: a foreign stream at the default size must still decode
+                    let mut enc = SpecEncoder::new();
+                    for (i, len) in [0usize, 5, 300].into_iter().enumerate() {
+                        let m = Msg { type_id: 8, msid: 1, ts: i as u32, payload: pattern(i as u32, len) };
+                        let bytes: Vec<u8> = enc.encode(3, 1, if i == 0 { 0 } else { 1 }, &m).concat();
+                        match de.get_next_message(&bytes) {
+                            Ok(Some(g)) if g.data[..] == m.payload[..] => {}
+                            other => return ("refusal-side-effect".into(), format!("chunk size {} was refused ({:?}) but afterwards a {}-byte message at the default size: {:?}", v, e, len, other.map(|o| o.map(|p| p.data.len())).map_err(|e| format!("{:?}", e)))),
+                        }
+                    }
+                    refused(format!("{:?}", e))
+                }
                 Ok(()) => {
                     // a foreign sender that uses this chunk size (announcement omitted: set directly)
                     let mut enc = SpecEncoder::new();
@@ -276,7 +335,7 @@ pub fn run(run: &Run) {
     let win_vals: Vec<u64> = vec![0, 1, 2, 0x8000_0000, 0xFFFF_FFFF];
     let len_vals: Vec<u64> = vec![0, 1, 14, 65_000, 65_535, 65_536];
     let mut cases: Vec<(String, u64)> = Vec::new();
-    for k in ["ser_chunk", "de_chunk", "server_chunk", "client_chunk", "peer_chunk_to_server", "peer_chunk_to_client"] {
+    for k in ["ser_chunk", "ser_chunk_after_3", "ser_chunk_after_5000", "de_chunk", "server_chunk", "client_chunk", "peer_chunk_to_server", "peer_chunk_to_client"] {
         for &v in chunk_vals.iter() {
             cases.push((k.to_string(), v));
         }
@@ -331,6 +390,7 @@ pub fn run(run: &Run) {
                                 }
                             }
                             "panic" => run.violation(&format!("C19/panic/{}", kind), &format!("{} = {}: {}", kind, v, detail), replay),
+                            "refusal-side-effect" => run.violation(&format!("C19/refusal-left-the-codec-broken/{}", kind), &format!("{} = {}: {}", kind, v, detail), replay),
                             _ => run.violation(&format!("C19/accepted-but-not-working/{}{}", kind, if bad { "/inexpressible-value" } else { "" }), &format!("{} = {} was accepted but the codec/session does not work with it: {}", kind, v, detail), replay),
                         }
                     }
@@ -344,7 +404,7 @@ pub fn run(run: &Run) {
     let total = cases.len() as u64;
     run.set("evaluations", json!(total));
     run.set("distinct_nontrivial", json!(total));
-    run.set("rule", json!("one child process per (entry point, value); entry points: ChunkSerializer/ChunkDeserializer::set_max_chunk_size, Server/ClientSessionConfig fields, a peer-sent Set Chunk Size to either session, version/url/app/key string lengths, payload lengths; a case passes when the value is refused with Err, or accepted and a mini C01 (messages incl. 0 bytes and chunk size + 1 through the codec) or mini C02 (default schedule connect/publish|play/items/stop) passes"));
+    run.set("rule", json!("one child process per (entry point, value); entry points: ChunkSerializer/ChunkDeserializer::set_max_chunk_size, Server/ClientSessionConfig fields, a peer-sent Set Chunk Size to either session, version/url/app/key string lengths, payload lengths; (also after an earlier announcement of 3 / 5000, and followed by further announcements on the same pair); a case passes when the value is refused with Err and the codec keeps working at the size in force, or accepted and a mini C01 (messages incl. 0 bytes and chunk size + 1 through the codec) or mini C02 (default schedule connect/publish|play/items/stop) passes"));
     run.set("exhaustive", json!(true));
     run.set("values", json!({"chunk_sizes": chunk_vals, "windows_bandwidths_buffers": win_vals, "string_lengths": len_vals, "payload_lengths": [0, 16_777_215, 16_777_216]}));
     run.count("cases", total);
